@@ -35,23 +35,73 @@ namespace XALAN_CPP_NAMESPACE {
 
 
 
-XercesDOMParsedSourceHelper::XercesDOMParsedSourceHelper(MemoryManager&     theManager) :
+XercesDOMParsedSourceDOMSupport::XercesDOMParsedSourceDOMSupport(
+            XercesParserLiaison&        theLiaison,
+            const XercesParserLiaison*  theSourceLiaison) :
+    XercesDOMSupport(theLiaison),
+    m_sourceLiaison(theSourceLiaison)
+{
+}
+
+
+
+XercesDOMParsedSourceDOMSupport::~XercesDOMParsedSourceDOMSupport()
+{
+}
+
+
+
+const XalanDOMString&
+XercesDOMParsedSourceDOMSupport::getUnparsedEntityURI(
+            const XalanDOMString&   theName,
+            const XalanDocument&    theDocument) const
+{
+    const XalanDOMString&   theURI =
+        XercesDOMSupport::getUnparsedEntityURI(theName, theDocument);
+
+    if (theURI.empty() == false || m_sourceLiaison == 0)
+    {
+        return theURI;
+    }
+    else
+    {
+        // The document may be the source document, which only the
+        // liaison that built its wrapper can map.  (The result refers to
+        // a string owned by the wrapper, or to a static empty string.)
+        const XercesDOMSupport  theSourceSupport(
+                    const_cast<XercesParserLiaison&>(*m_sourceLiaison));
+
+        return theSourceSupport.getUnparsedEntityURI(theName, theDocument);
+    }
+}
+
+
+
+XercesDOMParsedSourceHelper::XercesDOMParsedSourceHelper(
+            MemoryManager&              theManager,
+            const XercesParserLiaison*  theSourceLiaison) :
     m_parserLiaison(theManager),
-    m_domSupport(m_parserLiaison)
+    m_domSupport(m_parserLiaison, theSourceLiaison)
 {
 }
 
 
 
 XercesDOMParsedSourceHelper*
-XercesDOMParsedSourceHelper::create(MemoryManager&  theManager)
+XercesDOMParsedSourceHelper::create(
+            MemoryManager&              theManager,
+            const XercesParserLiaison*  theSourceLiaison)
 {
-    XercesDOMParsedSourceHelper*    theInstance = 0;
+    typedef XercesDOMParsedSourceHelper     ThisType;
 
-    return XalanConstruct(
-        theManager,
-        theInstance,
-        theManager);
+    XalanAllocationGuard    theGuard(theManager, theManager.allocate(sizeof(ThisType)));
+
+    ThisType* const     theResult =
+        new (theGuard.get()) ThisType(theManager, theSourceLiaison);
+
+    theGuard.release();
+
+    return theResult;
 }
 
 
@@ -183,7 +233,7 @@ XercesDOMParsedSource::getDocument() const
 XalanParsedSourceHelper*
 XercesDOMParsedSource::createHelper(MemoryManager& theManager) const
 {
-    return XercesDOMParsedSourceHelper::create(theManager);
+    return XercesDOMParsedSourceHelper::create(theManager, &m_parserLiaison);
 }
 
 
